@@ -66,6 +66,10 @@ def law_configs(draw, classes=("metropolis", "gibbs", "pca", "hmc", "ensemble"),
             lo = [m_ - draw(st.floats(0.2, 2.5)) * s for m_, s in zip(mean, sd)]
             hi = [m_ + draw(st.floats(0.2, 2.5)) * s for m_, s in zip(mean, sd)]
             cfg["box_abs"] = [lo, hi]
+            if cls in ("gibbs", "metropolis") and draw(st.booleans()):
+                # the same parameters are also declared non-negative: the support is [max(lower, 0), upper]
+                cfg["nonneg_too"] = draw(st.sampled_from(["before", "after"]))
+                cfg["box_abs"] = [lo, [max(h, 0.3 * s_) for h, s_ in zip(hi, sd)]]
     if cls == "hmc":
         cfg["hmc"] = {"eps_log": draw(st.floats(-0.5, 0.25)), "mass": draw(st.sampled_from(["default", "scalar", "vector", "matrix", "matrix"])),
                       "mass_log": [draw(st.sampled_from([0.9, -0.9, draw(st.floats(-1.0, 1.0))])) for _ in range(d)], "mass_corr": draw(st.sampled_from([0.0, 0.45, -0.45, 0.65, draw(st.floats(-0.68, 0.68))])), "grad": True}
@@ -76,9 +80,13 @@ def law_configs(draw, classes=("metropolis", "gibbs", "pca", "hmc", "ensemble"),
     return cfg
 
 
-def box_of(cfg):
+def box_of(cfg, declared=False):
+    """the support implied by the limits (declared=True: the boundaries as handed to set_boundaries)"""
     if "box_abs" in cfg:
-        return np.array(cfg["box_abs"][0], dtype=float), np.array(cfg["box_abs"][1], dtype=float)
+        lo, hi = np.array(cfg["box_abs"][0], dtype=float), np.array(cfg["box_abs"][1], dtype=float)
+        if cfg.get("nonneg_too") and not declared:
+            lo = np.maximum(lo, 0.0)
+        return lo, hi
     return None
 
 
@@ -96,11 +104,14 @@ def make_sampler(cfg, start, tgt, positions=None):
         if cls in ("gibbs", "metropolis"):
             C = GibbsChain if cls == "gibbs" else MetropolisChain
             ch = C(posterior=tgt, start=start, widths=widths, temperature=cfg["T"], display_progress=False)
+            raw = box_of(cfg, declared=True)
             for i in range(cfg["d"]):
-                if cfg["limits"] and cfg["limits"][i] == "nonneg":
+                if (cfg["limits"] and cfg["limits"][i] == "nonneg") or cfg.get("nonneg_too") == "before":
                     ch.set_non_negative(i, True)
                 if box is not None:
-                    ch.set_boundaries(i, (float(box[0][i]), float(box[1][i])))
+                    ch.set_boundaries(i, (float(raw[0][i]), float(raw[1][i])))
+                if cfg.get("nonneg_too") == "after":
+                    ch.set_non_negative(i, True)
             return ch
         if cls == "pca":
             return PcaChain(posterior=tgt, start=start, widths=widths, temperature=cfg["T"], bounds=box, display_progress=False)
